@@ -21,7 +21,7 @@ Extraction "model.ml"
   C06O.kf_varint_noncanonical C06O.kf_proplen_omitted C06O.kf_alloc_upfront
   C06O.kf_ack_flags C06O.kf_trailing C06O.kf_prop_len_overrun C06O.kf_retain_handling_3 C06O.kf_nolocal_shared
   C06O.kf_pid_zero C06O.kf_name_empty C06O.kf_connect_props_will C06O.kf_auth_v3
-  C06O.kf_v3_password_without_username C06O.kf_unsub_share_syntax C06O.kf_topic_fffd
-  C06O.c06_encode_ok C06O.kf_enc_topic_fffd C06O.step_ok
-  C06O.model_topic_obs C06O.topic_obs_eqb C06O.c06_topic_ok C06O.kf_t_name_empty C06O.kf_t_fffd C06O.kf_t_nul
+  C06O.kf_v3_password_without_username C06O.kf_unsub_share_syntax
+  C06O.c06_encode_ok C06O.step_ok
+  C06O.model_topic_obs C06O.topic_obs_eqb C06O.c06_topic_ok C06O.kf_t_name_empty C06O.kf_t_nul
   C06O.c06_msg_ok C06O.model_msg_obs C06O.spec_reason.
